@@ -19,6 +19,8 @@ pub enum Kind {
     Money(String),
     /// unit word and the format prefix/suffix around {value}
     Unit(String, String, String),
+    /// item 'qq' of a user-defined unit family that carries its own digits and flags
+    UserUnit,
 }
 
 #[derive(Clone, Debug, Serialize, Deserialize)]
@@ -258,6 +260,23 @@ impl Prop for C07 {
                 },
             ));
         }
+        {
+            let seps = seps.clone();
+            f.push(Family::new(
+                "user-unit",
+                Mode::Full,
+                "quantities of a user-defined unit registered with its own format settings: digits [0, 2, 3] x zero-fraction removal on/off x rounding on/off (every combination, so that each flag is seen alone) x separators x value grid",
+                move |ch| {
+                    let digits = *ch.pick(&[2u8, 0, 3]);
+                    let remove_zero_fract = ch.flag();
+                    let rounding = !ch.flag();
+                    let (dec, thou) = *ch.pick(&seps);
+                    let g = grid(digits, Tier::Quick);
+                    let x = *ch.pick(&g);
+                    Some(Case { kind: Kind::UserUnit, x, digits, remove_zero_fract, rounding, dec: dec.into(), thou: thou.into() })
+                },
+            ));
+        }
         f
     }
 
@@ -280,6 +299,10 @@ impl Prop for C07 {
                 format!("{} {}", format!("{}", c.x).replace('.', &c.dec), code)
             }
             Kind::Unit(word, _, _) => format!("[NUMBER:{}] {}", fmt_x(c.x), word),
+            Kind::UserUnit => {
+                cfg.user_unit = Some((c.digits, c.remove_zero_fract, c.rounding));
+                format!("[NUMBER:{}] qq", fmt_x(c.x))
+            }
         };
         let lc = LineCase::new(text.clone(), Expect::Unspecified, "format").with_cfg(cfg);
         let run = run_case(ctx, &lc);
@@ -313,6 +336,7 @@ impl Prop for C07 {
                 };
                 stripped.map(|s| s.to_string()).ok_or_else(|| format!("money not printed with symbol {:?} in the configured placement", cur.symbol))
             }
+            Kind::UserUnit => out.strip_suffix(" qq").map(|s| s.to_string()).ok_or_else(|| "user-defined unit quantity not printed through the unit's format".to_string()),
             Kind::Unit(_, pre, post) => out.strip_prefix(pre.as_str()).and_then(|s| s.strip_suffix(post.as_str())).map(|s| s.to_string()).ok_or_else(|| "unit quantity not printed through the unit's format".to_string()),
         };
         match body.and_then(|b| accept(&b, c.x, c.digits, c.remove_zero_fract, c.rounding, &c.dec, &c.thou).map_err(|e| e)) {
